@@ -186,6 +186,41 @@ def judge(resp, root, texts):
 
 
 # ------------------------------------------------------------------------------------------------
+# diagnostic codes by name, re-read from src/ddperror/codes.go on every run (payload of the model's events)
+# ------------------------------------------------------------------------------------------------
+def read_codes():
+    codes = {}
+    base = None
+    n = 0
+    inblock = False
+    for line in open(os.path.join(vlib.REPO, "src", "ddperror", "codes.go"), encoding="utf-8"):
+        t = line.split("//")[0].strip()
+        if t.startswith("const ("):
+            inblock, n, base = True, 0, None
+            continue
+        if inblock and t == ")":
+            inblock = False
+            continue
+        if not inblock or not t:
+            continue
+        m = re.match(r"^([A-Z][A-Z0-9_]*)\s+Code\s*=\s*iota(?:\s*\+\s*(\d+))?$", t)
+        if m:
+            base = int(m.group(2) or 0) - n
+            codes[m.group(1)] = base + n
+        elif re.match(r"^[A-Z][A-Z0-9_]*$", t) and base is not None:
+            codes[t] = base + n
+        n += 1
+    return codes
+
+
+CODE = {}
+
+
+def K(name):
+    return str(CODE[name])
+
+
+# ------------------------------------------------------------------------------------------------
 # leg F: programs with a known event trace
 # ------------------------------------------------------------------------------------------------
 FN = '''Die Funktion f%(u)d mit dem Parameter a vom Typ Zahl, gibt nichts zurück, macht:
@@ -280,29 +315,29 @@ class Scenario:
                 zahl = "v%d" % u
             elif k == "ty":
                 L.append("Die Zahl v%d ist wahr." % u)
-                E += ["err:c:e:3001", "sync"]
+                E += ["err:c:e:" + K("TYP_BAD_ASSIGNEMENT"), "sync"]
             elif k == "tyd":        # a type error whose AST still lowers to valid IR
                 L.append("Wir definieren eine Hausnummer%d als eine Zahl." % u)
                 L.append("Die Hausnummer%d h%d ist %d." % (u, u, u))
-                E += ["err:c:e:3001", "sync"]
+                E += ["err:c:e:" + K("TYP_BAD_ASSIGNEMENT"), "sync"]
             elif k == "un":
                 L.append("Die Zahl v%d ist unbekannt%d." % (u, u))
-                E += ["err:r:e:2001", "sync"]
+                E += ["err:r:e:" + K("SEM_NAME_UNDEFINED"), "sync"]
             elif k == "syn":
                 L.append("Die Zahl v%d ist ." % u)
-                E += ["err:p:e:1000", "bad", "sync"]
+                E += ["err:p:e:" + K("SYN_UNEXPECTED_TOKEN"), "bad", "sync"]
             elif k == "warn":
                 L.append("...")
-                E += ["dir:p:w:2022"]
+                E += ["dir:p:w:" + K("SEM_TODO_STMT_FOUND")]
             elif k == "dbl":
                 L.append('Die Zahl v%d ist wahr plus "a".' % u)
-                E += ["err:c:e:3000", "err:c:e:3001", "sync"]
+                E += ["err:c:e:" + K("TYP_TYPE_MISMATCH"), "err:c:e:" + K("TYP_BAD_ASSIGNEMENT"), "sync"]
             elif k == "cap":
                 L.append("die Zahl v%d ist %d." % (u, u))
-                m["scan"].append("err:s:e:1004")
+                m["scan"].append("err:s:e:" + K("SYN_EXPECTED_CAPITAL"))
             elif k == "chr":
                 L.append("Der Buchstabe c%d ist 'ab'." % u)
-                m["scan"].append("err:s:e:1005")
+                m["scan"].append("err:s:e:" + K("SYN_MALFORMED_LITERAL"))
             elif k == "fn":
                 L.append(FN % dict(u=u))
                 funcs.append(u)
@@ -311,22 +346,22 @@ class Scenario:
                 E += ARG + ["cd"]
             elif k == "call_ty":
                 L.append("nimm%d wahr." % rng.choice(funcs))
-                E += ARG + ["cd", "err:c:e:3000", "sync"]
+                E += ARG + ["cd", "err:c:e:" + K("TYP_TYPE_MISMATCH"), "sync"]
             elif k == "call_argerr":
                 L.append("nimm%d (1 plus)." % rng.choice(funcs))
-                E += ["ab", "err:p:e:1000", "ae", "qb", "qe", "cd", "ab", "err:p:e:1000", "ae", "cr", "bad", "err:c:e:3000", "sync"]
+                E += ["ab", "err:p:e:" + K("SYN_UNEXPECTED_TOKEN"), "ae", "qb", "qe", "cd", "ab", "err:p:e:" + K("SYN_UNEXPECTED_TOKEN"), "ae", "cr", "bad", "err:c:e:" + K("TYP_TYPE_MISMATCH"), "sync"]
             elif k == "spec_keep":
                 L.append("Speichere %d in %s 2 Mal." % (u, zahl))
                 E += ["sb", "se"]
             elif k == "spec_disc":
                 L.append("Speichere %d in %s )." % (u, zahl))
-                E += ["sb", "err:p:e:1000", "se", "err:p:e:1000", "sync"]
+                E += ["sb", "err:p:e:" + K("SYN_UNEXPECTED_TOKEN"), "se", "err:p:e:" + K("SYN_UNEXPECTED_TOKEN"), "sync"]
             elif k == "spec_keep_err":
                 L.append("Speichere %d in %s (1 plus) Mal." % (u, zahl))
-                E += ["sb", "err:p:e:1000", "se", "rr", "bad", "sync"]
+                E += ["sb", "err:p:e:" + K("SYN_UNEXPECTED_TOKEN"), "se", "rr", "bad", "sync"]
             elif k == "fwd":
                 L.append(FWD % dict(u=u))
-                m["end"] += ["err:p:e:2024", "sync"]
+                m["end"] += ["err:p:e:" + K("SEM_FORWARD_DECL_WITHOUT_DEF"), "sync"]
             elif k == "gdecl":
                 if rng.random() < 0.5:
                     L.append(GB % dict(u=u))
@@ -353,11 +388,11 @@ class Scenario:
                     L.append('Der Text tx%d ist "h".' % u)
                     if kind == "GB":
                         L.append("mach%d tx%d." % (gu, u))
-                        E += ARG + ["ib:%d" % d, "err:c:e:3000", "ie:1", "cw:2031", "err:r:e:2001", "sync"]
+                        E += ARG + ["ib:%d" % d, "err:c:e:" + K("TYP_TYPE_MISMATCH"), "ie:1", "cw:" + K("SEM_ERROR_INSTANTIATING_GENERIC_FUNCTION"), "err:r:e:" + K("SEM_NAME_UNDEFINED"), "sync"]
                         self.kinds.add("gcall_fail_" + ("same" if d == idx else "imported"))
                     else:
                         L.append("tu%d tx%d." % (gu, u))
-                        E += ARG + ["ib:%d" % d, "err:c:e:3000", "ie:1", "cd"] + ARG + ["ib:%d" % d, "ie:1", "cd"]
+                        E += ARG + ["ib:%d" % d, "err:c:e:" + K("TYP_TYPE_MISMATCH"), "ie:1", "cd"] + ARG + ["ib:%d" % d, "ie:1", "cd"]
                         self.kinds.add("gcall_discarded_" + ("same" if d == idx else "imported"))
             after_dot = L[-1].rstrip().endswith(".") and L[-1] != "..."
         return m
@@ -394,23 +429,23 @@ def fixed_scenarios():
     # the refutation witnesses of Props/C07.v
     out.append(Fixed("discarded-instantiation-of-imported-generic",
                      [("main", 'Binde "m1" ein.\nDer Text tx ist "h".\ntu1 tx.\n'), ("m1", GR % P + GV % P)],
-                     "mb:1 fin ab ae qb qe ib:1 err:c:e:3000 ie:1 cd ab ae qb qe ib:1 ie:1 cd fin"))
-    out.append(Fixed("root-scanner-error", [("main", "die Zahl x ist 1.\n")], "err:s:e:1004 fin"))
-    out.append(Fixed("root-scanner-error-char", [("main", "Der Buchstabe c ist 'ab'.\n")], "err:s:e:1005 fin"))
-    out.append(Fixed("imported-scanner-error", [("main", 'Binde "m1" ein.\n'), ("m1", "die Zahl x ist 1.\n")], "mb:1 err:s:e:1004 fin fin"))
+                     "mb:1 fin ab ae qb qe ib:1 err:c:e:%(TYP_TYPE_MISMATCH)s ie:1 cd ab ae qb qe ib:1 ie:1 cd fin" % CODE))
+    out.append(Fixed("root-scanner-error", [("main", "die Zahl x ist 1.\n")], "err:s:e:%(SYN_EXPECTED_CAPITAL)s fin" % CODE))
+    out.append(Fixed("root-scanner-error-char", [("main", "Der Buchstabe c ist 'ab'.\n")], "err:s:e:%(SYN_MALFORMED_LITERAL)s fin" % CODE))
+    out.append(Fixed("imported-scanner-error", [("main", 'Binde "m1" ein.\n'), ("m1", "die Zahl x ist 1.\n")], "mb:1 err:s:e:%(SYN_EXPECTED_CAPITAL)s fin fin" % CODE))
     out.append(Fixed("discarded-instantiation-same-module", [("main", GR % P + GV % P + 'Der Text tx ist "h".\ntu1 tx.\n')],
-                     "ab ae qb qe ib:0 err:c:e:3000 ie:1 cd ab ae qb qe ib:0 ie:1 cd fin"))
+                     "ab ae qb qe ib:0 err:c:e:%(TYP_TYPE_MISMATCH)s ie:1 cd ab ae qb qe ib:0 ie:1 cd fin" % CODE))
     out.append(Fixed("failed-instantiation-of-imported-generic",
                      [("main", 'Binde "m1" ein.\nDer Text tx ist "h".\nmach1 tx.\nDie Zahl z ist wahr.\n'), ("m1", GB % P)],
-                     "mb:1 fin ab ae qb qe ib:1 err:c:e:3000 ie:1 cw:2031 err:r:e:2001 sync err:c:e:3001 sync fin"))
+                     "mb:1 fin ab ae qb qe ib:1 err:c:e:%(TYP_TYPE_MISMATCH)s ie:1 cw:%(SEM_ERROR_INSTANTIATING_GENERIC_FUNCTION)s err:r:e:%(SEM_NAME_UNDEFINED)s sync err:c:e:%(TYP_BAD_ASSIGNEMENT)s sync fin" % CODE))
     out.append(Fixed("warnings-only", [("main", '...\nBinde "m1" ein.\n...\n'), ("m1", "...\nDie Zahl a ist 1.\n")],
-                     "dir:p:w:2022 mb:1 dir:p:w:2022 fin dir:p:w:2022 fin"))
+                     "dir:p:w:%(SEM_TODO_STMT_FOUND)s mb:1 dir:p:w:%(SEM_TODO_STMT_FOUND)s fin dir:p:w:%(SEM_TODO_STMT_FOUND)s fin" % CODE))
     out.append(Fixed("type-error-in-import-of-import",
                      [("main", 'Binde "m1" ein.\nDie Zahl a ist 1.\n'), ("m1", 'Binde "m2" ein.\n'), ("m2", "Die Zahl b ist wahr.\n")],
-                     "mb:1 mb:2 err:c:e:3001 sync fin fin fin"))
-    out.append(Fixed("type-error-that-still-lowers", [("main", "Wir definieren eine Hausnummer als eine Zahl.\nDie Hausnummer h ist 1.\n")], "err:c:e:3001 sync fin"))
-    out.append(Fixed("error-at-first-token", [("main", ") Die Zahl a ist 1.\n")], "err:p:e:1000 bad sync fin"))
-    out.append(Fixed("error-at-last-token", [("main", "Die Zahl a ist 1.\nDie Zahl b ist 2")], "err:p:e:1000 sync fin"))
+                     "mb:1 mb:2 err:c:e:%(TYP_BAD_ASSIGNEMENT)s sync fin fin fin" % CODE))
+    out.append(Fixed("type-error-that-still-lowers", [("main", "Wir definieren eine Hausnummer als eine Zahl.\nDie Hausnummer h ist 1.\n")], "err:c:e:%(TYP_BAD_ASSIGNEMENT)s sync fin" % CODE))
+    out.append(Fixed("error-at-first-token", [("main", ") Die Zahl a ist 1.\n")], "err:p:e:%(SYN_UNEXPECTED_TOKEN)s bad sync fin" % CODE))
+    out.append(Fixed("error-at-last-token", [("main", "Die Zahl a ist 1.\nDie Zahl b ist 2")], "err:p:e:%(SYN_UNEXPECTED_TOKEN)s sync fin" % CODE))
     return out
 
 
@@ -573,6 +608,12 @@ def main():
         ck.broken_obligation("extracted model driver extract/_build/c07 missing (make setup)", "")
         ck.finish()
     env = dict(os.environ, DDPPATH=b.dir)
+    CODE.update(read_codes())
+    need = ["TYP_BAD_ASSIGNEMENT", "SEM_NAME_UNDEFINED", "SYN_UNEXPECTED_TOKEN", "SEM_TODO_STMT_FOUND", "TYP_TYPE_MISMATCH", "SYN_EXPECTED_CAPITAL",
+            "SYN_MALFORMED_LITERAL", "SEM_FORWARD_DECL_WITHOUT_DEF", "SEM_ERROR_INSTANTIATING_GENERIC_FUNCTION"]
+    if any(n not in CODE for n in need):
+        ck.broken_obligation("translator: diagnostic codes %s not found in src/ddperror/codes.go" % [n for n in need if n not in CODE], "")
+        ck.finish()
     sc = vlib.scratch()
     texts = Texts()
     rng = ck.rng
@@ -835,7 +876,7 @@ def main():
     for top, rel, sib in units:
         dreqs.append(dict(id="g", file=os.path.join(mirror, top, rel)))
         dmeta.append(("golden", top, rel, None, None))
-    nD = 2600 if ck.quick else 30000
+    nD = 2600 if ck.quick else 24000
     gen_roots = [s for s, _, _ in scen if not any(x in s.kinds for x in ("ty", "un", "syn", "dbl", "cap", "chr"))][:40]
     mutkinds = {}
     for i in range(nD):
@@ -914,7 +955,7 @@ def main():
 
     log('[c07] %.1fs direct done' % (time.time()-ck.t0))
     # ---- K. kddp on a sample ----------------------------------------------------------------------
-    nK = 36 if ck.quick else 260
+    nK = 36 if ck.quick else 200
     pool = [(s, d, root, o) for (s, d, root), o in zip(scen, scen_obs) if o is not None]
     rng.shuffle(pool)
     # make sure the interesting classes are present
